@@ -47,7 +47,7 @@ _loop = LoopSpec(
              "forall(m, idx <= m < len(row_ids), filled_row_ids[m] == row_ids[m])",
     "filled": "forall(m, 0 <= m < idx, filled_row_ids[m] is not None and "
               "(filled_row_ids[m] == row_ids[m] if not auto(m) else filled_row_ids[m] >= next0()) and "
-              "0 <= filled_row_ids[m] < next_row_id and (auto(m) or row_ids[m] <= 1000000))",
+              "0 < filled_row_ids[m] < next_row_id and (auto(m) or row_ids[m] <= 1000000))",
     "auto_increasing": "forall(m, p, 0 <= m < p < idx and auto(p), filled_row_ids[m] < filled_row_ids[p])",
   })
 
